@@ -383,9 +383,17 @@ class CircuitGraph(object):
         series = []
         series.append(cpt_name)
 
+        # Nodes that must keep their identity: the reference node and
+        # the nodes sensed by voltage-controlled sources.
+        visible = set(['0'])
+        for elt1 in cct.elements.values():
+            if elt1.is_dependent_source:
+                for node_name in elt1.node_names[2:]:
+                    visible.add(cct.node_map[node_name])
+
         def follow(node):
             neighbours = self.G[node]
-            if len(neighbours) > 2:
+            if len(neighbours) > 2 or node in visible:
                 return
             for n, e in neighbours.items():
                 if not e['name'] in series:
